@@ -1020,6 +1020,12 @@ def run_case(case, ctx):
     # truncate
     check_truncate(ctx, teneva, rng, Y, NY, sYY, info, edge)
 
+    # periodic tensors as they are usually written down: ONE array object at
+    # many positions of the list ([G]*d, [A, B]*m) - the values decide, not
+    # the identity of the cores
+    if not edge and d <= 300 and d % 2 == 0:
+        shared_objects(ctx, teneva, rng, d)
+
     # power-of-two metamorphic tests (core families only: an edge family is
     # outside the range where every local product is exact under scaling)
     if not edge:
@@ -1044,6 +1050,42 @@ def run_case(case, ctx):
         'mul_scalar_reference_(m,e)': [float(sYX.m), sYX.e],
         'mul_scalar_rel_tolerance': C * EPS * sYX.rel,
         'orthogonalize_p': {int(k): int(v[1]) for k, v in orth_out.items()}})
+
+
+def shared_objects(ctx, teneva, rng, d):
+    nm = int(rng.integers(1, 4))
+    ex = int(rng.integers(-60, 61))
+    if rng.random() < 0.5:
+        G = np.ldexp(rng.normal(size=(1, nm, 1)), ex)
+        Ysh = [G] * d
+        ey = [ex] * d
+    else:
+        q = int(rng.integers(1, 4))
+        A = np.ldexp(rng.normal(size=(1, nm, q)), ex)
+        Bc = rng.normal(size=(q, nm, 1))
+        Ysh = [A, Bc] * (d // 2)
+        ey = [ex, 0] * (d // 2)
+    n = [nm] * d
+    delta = float(10.0 ** rng.integers(-3, 0))
+    Xd = [H + delta * np.ldexp(rng.normal(size=H.shape), int(e))
+        for H, e in zip(Ysh, ey)]            # distinct arrays, close to Ysh
+    snap = [H.copy() for H in Ysh[:2]]
+    NYs, NXd = normcores(Ysh), normcores(Xd)
+    s11, s22, s12 = sweep(NYs, NYs), sweep(NXd, NXd), sweep(NYs, NXd)
+    info = {'n': n, 'r1': ref.ranks_of(Ysh), 'r2': ref.ranks_of(Xd),
+        'ey': ey, 'ex': ey}
+    check_mul_scalar(ctx, teneva, Ysh, Xd, s12, '<Y, X>, Y of shared cores')
+    check_norm(ctx, teneva, Ysh, s11, 'norm(Y), Y of shared cores')
+    check_accuracy(ctx, teneva, Ysh, Xd, s11, s12, s22,
+        'accuracy(Y, X), Y of shared cores')
+    check_accuracy(ctx, teneva, Xd, Ysh, s22, s12, s11,
+        'accuracy(X, Y), Y of shared cores')
+    check_orth(ctx, teneva, rng, Ysh, NYs, s11, info, False)
+    check_truncate(ctx, teneva, rng, Ysh, NYs, s11, info, False)
+    ctx.check('shared-objects-untouched', all(np.array_equal(a_, b_)
+        for a_, b_ in zip(Ysh[:2], snap)), 'a routine modified the shared '
+        'core objects of its argument')
+    ctx.event('shared-core-objects')
 
 
 def accuracy_family(ctx, teneva, rng, Y, NY, sYY, info, edge):
